@@ -91,7 +91,8 @@ class Worker(metaclass=SupportClassPropertiesMeta):
             self._started = True
             self._dead = True # should be set to False by the derived class, after a child is actually created
             self._start()
-            if not self._dead and not _is_restart:
+            if not self._dead:
+                # a restarted worker is usually still registered, unless it had died and was forgotten in the meantime
                 Worker.register_child(self)
         else:
             self._started = False
@@ -114,7 +115,8 @@ class Worker(metaclass=SupportClassPropertiesMeta):
     @staticmethod
     def register_child(child):
         with Worker._children_lock:
-            Worker._active_children.append(child)
+            if not any(c is child for c in Worker._active_children):
+                Worker._active_children.append(child)
 
     @classmethod
     def create(cls, worker_type, *args, **kwargs):
